@@ -274,6 +274,12 @@ def scenario(args):
                             # known class C07-K1: HEAD resolution failing inside the pre-commit checkpoint
                             stats.setdefault("known_k1", 0)
                             stats["known_k1"] += 1
+                        elif pr and mode == "FAIL" and cname not in ("commit", "commit_amend") and \
+                                all(x.startswith("invented attribution") and ("'HUMAN-r'" in x or "'HUMAN-n'" in x) for x in pr):
+                            # known class C07-K4: the pre-command checkpoint of reset / stash / checkout fails, the failure is
+                            # swallowed, the command proceeds and carries the STALE working log over
+                            stats.setdefault("known_k4", 0)
+                            stats["known_k4"] += 1
                         elif pr:
                             fails.append({"what": f"after {mode.lower()} at call {k}/{n} ({' '.join(a_k[:3])}): " + "; ".join(pr[:3])})
                 finally:
@@ -374,6 +380,7 @@ def run(ctx):
         violations.append(("regression of repaired defect 2f498aeb: a wrapped command fails when .git/ai cannot be prepared",
                            {"kind": "fixed-witness"}))
     n = sum(tot.values())
+    k4 = sum(r_["stats"].get("known_k4", 0) for r_ in res if "stats" in r_)
     k3 = sum(r_["stats"].get("known_k3", 0) for r_ in res if "stats" in r_)
     k1 = sum(r_["stats"].get("known_k1", 0) for r_ in res if "stats" in r_)
     known = []
@@ -381,6 +388,10 @@ def run(ctx):
         known.append("C07-K1 the internal call that resolves HEAD (symbolic-ref HEAD / rev-parse refs/heads/<branch>) fails inside the "
                      "pre-commit checkpoint: the failure is taken for an unborn branch, the checkpoint goes to the `initial` working log, "
                      "the commit proceeds and post-commit applies the stale working log — a line a person rewrote is committed as AI")
+    if k4:
+        known.append("C07-K4 an internal git call fails inside the pre-command checkpoint of reset / stash / checkout: the failure is "
+                     "swallowed, the command proceeds and carries the stale working log over — a line a person rewrote without a "
+                     "checkpoint is later committed as AI")
     if k3:
         known.append("C07-K3 checkpoints.jsonl cannot be read or written at the OS level (replaced by a directory): the pre-commit "
                      "checkpoint fails and every later `git commit` is refused until the private state is repaired by hand")
